@@ -483,9 +483,8 @@ func applyPush(ctx Context, doc bsonkit.Doc, name, path string, v interface{}) e
 				newArr = newArr[:int(s)]
 			}
 		default: // s < 0
-			keep := -int(s)
-			if keep < len(newArr) {
-				newArr = newArr[len(newArr)-keep:]
+			if s > -int64(len(newArr)) {
+				newArr = newArr[len(newArr)+int(s):]
 			}
 		}
 	}
